@@ -216,4 +216,28 @@ def checkedAs128 (mult : Int) (t : Target) (raw : Int) : Option Int :=
   let n := as128 mult t raw
   if from128 mult t n ≠ raw then none else some n
 
+/-! ### As / CheckedAs, float targets
+
+The two strconv functions (and, for f128, the big.Float quotient) are parameters: `F` is the target float type,
+`parseFloat t` = `strconv.ParseFloat(t, bits)`, `formatFloat x` = `strconv.FormatFloat(float64(x), 'f', -1, bits)`,
+`quo raw mult` = `big.Float(prec 128).Quo(raw, mult).Float64()` converted to `TO`.  These definitions are not run by the
+driver (the harness judges this clause with an exact-rational oracle); they exist so that the clause can be stated and
+reduced to the contracts of the stdlib functions (Props/C04.lean, `checkedAs_float_*`). -/
+
+/-- `f64.As` to a float type: `TO(asFloat(f, bits))`, `asFloat` = `strconv.ParseFloat(f.String(), bits)` -/
+def asFloat64 {F : Type} (parseFloat : Str → F) (mult raw : Int) : F := parseFloat (toStr mult raw)
+
+/-- `f64.CheckedAs` to a float type -/
+def checkedAsFloat64 {F : Type} (parseFloat : Str → F) (formatFloat : F → Str) (mult raw : Int) : Option F :=
+  let n := asFloat64 parseFloat mult raw
+  if formatFloat n ≠ toStr mult raw then none else some n
+
+/-- `f128.As` to a float type -/
+def asFloat128 {F : Type} (quo : Int → Int → F) (mult raw : Int) : F := quo raw mult
+
+/-- `f128.CheckedAs` to a float type -/
+def checkedAsFloat128 {F : Type} (quo : Int → Int → F) (formatFloat : F → Str) (mult raw : Int) : Option F :=
+  let n := asFloat128 quo mult raw
+  if formatFloat n ≠ toStr128 mult raw then none else some n
+
 end FixedText
